@@ -604,7 +604,10 @@ mod matching {
         EM: EdgeMatcher<G0, G1>,
     {
         if st.0.is_complete() {
-            return Some(st.0.mapping.clone());
+            // Only the empty pattern is complete before any frame has run: it has
+            // exactly one (empty) mapping. Consume the initial frame so that an
+            // iterator yields it once instead of forever.
+            return stack.pop().map(|_| st.0.mapping.clone());
         }
 
         // A "depth first" search of a valid mapping from graph 1 to graph 2
